@@ -19,7 +19,7 @@ T = {
          "After every input line the monitor checks that no open client satisfies all release conditions without a verdict in that same step; histories weight late/duplicate/unexpected replies, repeated passwords, timeouts; daemon crash counts as everybody stuck.",
          "Bounded form of liveness as the statement itself gives it (same step); generator restricted to unambiguous replies and passwords.", "4/C03"),
  "C04": ("exploration", "differential runtime monitoring: same history with and without stray replies, outputs compared step by step",
-         "Pairs of real-daemon runs that differ only by inserted stray replies/unlinked notices (stale serial, unknown/not-awaited service, malformed or near-miss tag) must produce identical output; any output in the step of the stray line is a violation; directed slot-reuse (reload) and serial-wrap (2^8..2^16 connections) scenarios.",
+         "Pairs of real-daemon runs that differ only by inserted stray replies/unlinked notices (stale serial, unknown/not-awaited service, malformed or near-miss tag) must produce identical output; any output in the step of the stray line is a violation; directed slot-reuse (reload) and serial-wrap (2^8..2^16 connections) scenarios; tables of 33-64 services with replies from the ones the daemon refused, judged by the trace monitor on the sanitized and the plain build.",
          "Stray-ness is computed from the awaiting pairs observed in the base run; tags that strtol/strtoul would read as a live tag are not generated.", "4/C04"),
  "C05": ("exploration", "runtime trace monitor on verdict / relay content",
          "Trace rules tie each k/R/D/M/C line of the real daemon to the reply that caused it (text byte-for-byte, account only from awaited login-type services of this instance, class from the reference rule evaluator, +x when hiding was requested).",
@@ -28,10 +28,10 @@ T = {
          "Per client and configured service: no query before the protocol's prerequisites (or H), a query in the very step they become complete, content equal to the protocol format filled with the client's own fields cut to the documented limits, malformed passwords never forwarded; all arrival orders x protocols x boundary-length fields.",
          "User info is rendered with the two parameters the daemon's parser reads (recorded assumption).", "4/C06"),
  "C07": ("exploration", "differential runtime monitoring: solo run vs many interleavings, per-client projection; table audit hook",
-         "Each client script is run alone, then merged with others in many order-preserving interleavings; the projection of the daemon's output onto each client (serial renumbered) must equal the solo conversation; the guarded audit hook checks the request table's structure.",
+         "Each client script is run alone, then merged with others in many order-preserving interleavings; the projection of the daemon's output onto each client (serial renumbered) must equal the solo conversation; the guarded audit hook checks the request table's structure; directed sets around reloads and id re-use; real 2 s request timers next to each other judged by a one-sided clock oracle.",
          "Replies are addressed symbolically (n-th query to service s) so scripts are interleaving-independent.", "4/C07"),
  "C08": ("exploration", "sanitizers (ASan+UBSan+LSan) + exit-status/hang watchdog + differential (chunking, junk) on hostile byte streams",
-         "Grammar-aware hostile streams, every/sampled prefixes (peer death), read-chunk segmentations via the guarded chunk hook, transient read errors injected by an LD_PRELOAD shim, real-timer interruptions and junk-line insertion; oracle = clean exit, no sanitizer report, no hang, identical treatment of the good lines.",
+         "Grammar-aware hostile streams, every/sampled prefixes (peer death), read-chunk segmentations via the guarded chunk hook, transient read errors injected by an LD_PRELOAD shim, real-timer interruptions (1.6 s and 11.3 s, the latter so that statistics report requests older than ten seconds), streams interrupted by a SIGUSR1 that re-lists the modules, and junk-line insertion; oracle = clean exit, no sanitizer report, no hang, identical treatment of the good lines.",
          "A clean sanitizer run is not memory safety (non-adjacent/intra-object overflows are missed); bounded stream sizes.", "4/C08"),
  "C09": ("exploration", "runtime monitor: output grammar + independent address parser on the unhooked channel",
          "Every stdout line from the banner on must match one production of the message grammar; client messages must carry the announced id, an address text that Python's ipaddress reads as the announced value, and the announced port; run with no hook commands and with warning/error-producing events and several logs sections.",
@@ -43,13 +43,13 @@ T = {
          "Random rule tables (names whose ASCII order differs from case-insensitive order, all criteria subsets, CIDR/wildcard masks) x probe clients built to hit and just-miss each criterion; the class on D/R and the U upgrade must equal the reference model's.",
          "Globs limited to literals, * and ? with an own matcher.", "4/C11"),
  "C12": ("exploration", "exhaustive-abstraction + random runtime checking against inet_pton under ASan/UBSan",
-         "All 5^8 digit-count patterns of the eight groups x 3 fillings, mapped/compatible shapes, random values, every out_size 1..40, and parser-accepted addresses: print, re-parse with irc_pton and inet_pton, compare values, check fixed point, length and leading character.",
+         "All 5^8 digit-count patterns of the eight groups x 3 fillings, mapped/compatible shapes, random values, every out_size 1..40, and parser-accepted addresses: print, re-parse with irc_pton and inet_pton, compare values, check fixed point, length and leading character; plus the real daemon announced clients with texts drawn from the same abstraction and driven to a verdict plainly, through address rules, by the timer and as a re-announced id: every output line about a client must denote the announced address.",
          "glibc inet_pton is the reference; exact-size heap buffers so ASan red zones are adjacent.", "4/C12"),
  "C13": ("exploration", "bit-by-bit reference oracle + sanitizers on enumerated/grammar/mutated strings",
          "irc_check_mask vs a bit-by-bit oracle on boundary-focused and (thorough) exhaustive per-group differences at every length; grammar-derived mask texts with independently computed (bits, network); all short strings over the address alphabet, mutated seeds and libFuzzer-generated strings in exact-size heap buffers in all four call modes under ASan+UBSan; agreement with inet_pton where both accept.",
          "IPv4 masks count from bit 96, as the repository's tests state.", "4/C13"),
  "C14": ("fault_enumeration", "fault enumeration (every truncation point / byte substitution) under sanitizers with before/after dump and hook-log oracle",
-         "Valid generated files truncated at every byte and with hostile single-byte substitutions, loaded on top of several prior configurations in a harness linking the unmodified config code: no sanitizer report, termination, and on a reported error an unchanged live-tree dump and an empty hook log.",
+         "Valid generated files truncated at every byte and with hostile single-byte substitutions, loaded on top of several prior configurations in a harness linking the unmodified config code: no sanitizer report, termination, and on a reported error an unchanged live-tree dump and an empty hook log; a few files carry modification times in the future or far past.",
          "Files <= 4 KiB; parser leaks on error paths are counted, not judged.", "4/C14"),
  "C15": ("exploration", "runtime monitor: expected tree by construction + differential vs fresh process + hook log, under ASan/LSan",
          "Sequences of valid files over a small name/type universe with registrations before/between/after loads: values = last file or default, no unregistered leftovers, dump equals that of a fresh process on the last file, idempotent reload silent, hooks delivered on effective change.",
@@ -58,7 +58,7 @@ T = {
          "Random trees rendered with independently toggled layout features (quoting, escapes, list forms, terminators, comments, whitespace, repeats) must dump as the tree; typed values compared with their arithmetic meaning; unparsable typed values must leave the previous value in force.",
          "Grammar reference is the comment at the top of doc/iauthd-c.conf.example; NUL excluded.", "4/C16"),
  "C17": ("exploration", "differential runtime monitoring: reloaded daemon vs freshly started daemon on the same probes (real SIGUSR1)",
-         "For (old,new) configuration pairs covering add/remove/change-in-place of services and rules, a daemon reloaded by a real SIGUSR1 must treat a probe set exactly like a daemon started on the new file.",
+         "For (old,new) configuration pairs covering add/remove/change-in-place of services and rules, a daemon reloaded by a real SIGUSR1 must treat a probe set exactly like a daemon started on the new file (files overwritten in place, renamed into place, renamed with an old modification time); input already queued when the reload happens is judged by the order of lines in the output: old rules before the guarded reload marker, new rules after it.",
          "Reload completion observed through the guarded marker hook; pre-reload clients are finished or disconnected first.", "4/C17"),
  "C18": ("exploration", "reference-model monitor of the routing table vs destination files read back",
          "Random logs sections (all operators, comma lists, *, invalid entries, shared destinations) and reload sequences; one uniquely numbered message per (facility, severity); file membership must equal the model's, lines complete and attributed.",
@@ -67,7 +67,7 @@ T = {
          "Breadth-first exploration of every reachable splay-tree shape over universes of 1..7 keys applying every operation from every shape; long random sequences per stock comparator including extreme ints; comparator laws; after every operation result vs model, structural audit, cleanup exactly-once accounting.",
          "Harness supplies xmalloc so that only src/set.c is linked.", "4/C19"),
  "C20": ("exploration", "event-log monitor over stub modules loaded by the real daemon, enumerated dependency graphs",
-         "All labelled DAGs on <=4 (quick) / 5 (thorough) stub modules x listing orders, cyclic graphs, missing modules, dependencies declared by module_antidepends, constructor-less modules and graphs of 260-300 modules, run through the real `iauthd-c -k`; ordering constraints on constructor/post-init/destructor events and exit status.",
+         "All labelled DAGs on <=4 (quick) / 5 (thorough) stub modules x listing orders, cyclic graphs, missing modules, dependencies declared by module_antidepends, partial listings in which a back end pulls in its front end, constructor-less and hook-less modules, slow destructors and graphs of 260-300 modules, run through the real `iauthd-c -k`; ordering constraints on constructor/post-init/destructor events and exit status.",
          "Stub modules are copies of one fixture shared object reading the graph from the environment.", "4/C20"),
 }
 
